@@ -459,6 +459,20 @@ func (e *Enc) instr(fr *Frame, in ssa.Instruction, st *State, rb Term) (*State, 
 			vvv := Val{T: valT, Typ: mt.Elem()}
 			// tuple element types may be invalid (blank) – keep positions
 			fr.vals[x] = Val{Typ: tup, Tuple: []Val{{T: okT, Typ: types.Typ[types.Bool]}, kv, vvv}}
+			// ghost log "mapnext": one entry per iteration of a range-over-map loop (key boxed as an
+			// interface value), for contracts that count what a loop body does per key
+			if fr.top != nil && fr.top.contract != nil && fr.top.contract.UsesMapNext {
+				e.comps.Register("$mapnext.n", "Int")
+				e.comps.Register("$mapnext.arg0", "(Array Int Iface)")
+				n := e.Get(st, "$mapnext.n")
+				boxed := kv
+				if e.sortOf(mt.Key()) != "Iface" {
+					boxed = e.makeIface(kv, mt.Key())
+				}
+				st = e.Set(st, "$mapnext.arg0", ite(okT, app("store", e.Get(st, "$mapnext.arg0"), n, boxed.T), e.Get(st, "$mapnext.arg0")))
+				st = e.Set(st, "$mapnext.n", ite(okT, "(+ "+n+" 1)", n))
+				e.logs["mapnext"] = true
+			}
 		} else {
 			fr.vals[x] = Val{Typ: tup, Tuple: []Val{{T: okT, Typ: types.Typ[types.Bool]}, e.freshVal("next_k", types.Typ[types.Int]), e.freshVal("next_v", types.Typ[types.Int32])}}
 		}
